@@ -46,6 +46,7 @@ def run(P, R, tier, cfg):
     for fn in fls:
         _iff(P, R, FwdLoop(P, fn))
     n = connectives.check_logical_evaluators(P, R, "b")
+    connectives.check_constructors(P, R, "b")
     R.count("evaluators", n)
     if n < (FLOORS["evaluators"] if cfg in ("union", "bc") else FLOORS["evaluators"] - 1):
         R.undecide("b", "floor", "found %d connective evaluators, expected >= %d" % (n, FLOORS["evaluators"]))
